@@ -152,4 +152,67 @@ theorem normalize_reaches_normal_form (en : Node) : isNormal (normNode en).1 = t
 theorem normalize_preserves_nodes (s : St) (e : Nat) (hi : Inv s) : SameIds s (step s (.normalize e)).1 :=
   normalize_sameIds s e hi
 
+/-! ### the factories and the reads
+    A factory call that succeeds makes ONE node: new (its id was never used), outside the document, without parent, children or
+    attributes, of the kind and with the name / data asked for; the document and every other tree are as they were.  A name that
+    is not a name of the kind is INVALID_CHARACTER_ERR and makes nothing.  A read (`getAttributeNode`, `childNodes.item`) changes
+    no tree. -/
+
+/-- the state after a factory call that made node `i` of kind `k` with data `d` -/
+def Made (s s' : St) (i : Nat) (k : Kind) (d : Str) : Prop :=
+  i = s.next ∧ s'.doc = s.doc ∧ s'.detached = s.detached ++ [.mk i k d [] []] ∧ s'.next = s.next + 1
+
+theorem createElement_effect (s : St) (name : Str) :
+    (validQName name = true → ∃ s' i, step s (.createElement name) = (s', .node i) ∧ Made s s' i (.elem name) []) ∧
+    (validQName name = false → ∃ s', step s (.createElement name) = (s', .err .invalidChar) ∧ s'.doc = s.doc ∧ s'.detached = s.detached) := by
+  constructor
+  · intro h; simp only [step, h, if_true, St.fresh]; exact ⟨_, _, rfl, rfl, rfl, rfl, rfl⟩
+  · intro h; simp only [step, h, Bool.false_eq_true, if_false]; exact ⟨_, rfl, rfl, rfl⟩
+
+theorem createAttribute_effect (s : St) (name : Str) :
+    (validQName name = true → ∃ s' i, step s (.createAttribute name) = (s', .node i) ∧ Made s s' i (.attr name true) []) ∧
+    (validQName name = false → ∃ s', step s (.createAttribute name) = (s', .err .invalidChar) ∧ s'.doc = s.doc ∧ s'.detached = s.detached) := by
+  constructor
+  · intro h; simp only [step, h, if_true, St.fresh]; exact ⟨_, _, rfl, rfl, rfl, rfl, rfl⟩
+  · intro h; simp only [step, h, Bool.false_eq_true, if_false]; exact ⟨_, rfl, rfl, rfl⟩
+
+theorem createPI_effect (s : St) (t d : Str) :
+    ((validPITarget t && validPI t d) = true → ∃ s' i, step s (.createPI t d) = (s', .node i) ∧ Made s s' i (.pi t) (storedPIData d)) ∧
+    ((validPITarget t && validPI t d) = false → ∃ s', step s (.createPI t d) = (s', .err .invalidChar) ∧ s'.doc = s.doc ∧ s'.detached = s.detached) := by
+  constructor
+  · intro h; simp only [step, h, if_true, St.fresh]; exact ⟨_, _, rfl, rfl, rfl, rfl, rfl⟩
+  · intro h; simp only [step, h, Bool.false_eq_true, if_false]; exact ⟨_, rfl, rfl, rfl⟩
+
+theorem createText_effect (s : St) (d : Str) (h : validText d = true) :
+    ∃ s' i, step s (.createText d) = (s', .node i) ∧ Made s s' i .text d := by
+  simp only [step, h, if_true, St.fresh]; exact ⟨_, _, rfl, rfl, rfl, rfl, rfl⟩
+
+theorem createComment_effect (s : St) (d : Str) (h : validComment d = true) :
+    ∃ s' i, step s (.createComment d) = (s', .node i) ∧ Made s s' i .comment d := by
+  simp only [step, h, if_true, St.fresh]; exact ⟨_, _, rfl, rfl, rfl, rfl, rfl⟩
+
+theorem createCData_effect (s : St) (d : Str) (h : validCData d = true) :
+    ∃ s' i, step s (.createCData d) = (s', .node i) ∧ Made s s' i .cdata d := by
+  simp only [step, h, if_true, St.fresh]; exact ⟨_, _, rfl, rfl, rfl, rfl, rfl⟩
+
+/-- an entity reference can be made for a name that is a Name and stands for an entity the document knows (here: the
+    predefined ones); a string that is not a Name is INVALID_CHARACTER_ERR whatever it begins with -/
+theorem createEntityRef_effect (s : St) (name : Str) :
+    (validName name = false → ∃ s', step s (.createEntityRef name) = (s', .err .invalidChar) ∧ s'.doc = s.doc ∧ s'.detached = s.detached) ∧
+    (validName name = true → (predefined.find? (·.1 == name)).isSome = true →
+       ∃ s' i, step s (.createEntityRef name) = (s', .node i) ∧ Made s s' i (.ref name) []) := by
+  constructor
+  · intro h; simp only [step, h, Bool.not_false, if_true]; exact ⟨_, rfl, rfl, rfl⟩
+  · intro h hp; simp only [step, h, Bool.not_true, Bool.false_eq_true, if_false, hp, if_true, St.fresh]; exact ⟨_, _, rfl, rfl, rfl, rfl, rfl⟩
+
+/-- the reads leave every tree as it is (they only hand out a handle) -/
+theorem reads_change_no_tree (s : St) :
+    (∀ e name, (step s (.getAttributeNode e name)).1.doc = s.doc ∧ (step s (.getAttributeNode e name)).1.detached = s.detached) ∧
+    (∀ n i, (step s (.childAt n i)).1.doc = s.doc ∧ (step s (.childAt n i)).1.detached = s.detached) := by
+  constructor
+  · intro e name; simp only [step]; repeat' split
+    all_goals exact ⟨rfl, rfl⟩
+  · intro n i; simp only [step]; repeat' split
+    all_goals exact ⟨rfl, rfl⟩
+
 end XmlRs.C13
